@@ -14,7 +14,7 @@ theorem merge_succeeds (fs : FS) (subdirs : List String) (out : String) (hout : 
     (I : Inputs) (hL : Loaded fs subdirs I) (hD : InDomain subdirs I) :
     (merge fs subdirs out).2 = none := by
   obtain ⟨l1, l3, l4, l5, l6, l7, l8, l9, l10, l11, l12, l13, l14, l15, l16, l17⟩ := hL
-  obtain ⟨d0, dsc, dst, dmaps, dpos, k3, k4, k5, k6, n4, n5, n6, k12⟩ := hD
+  obtain ⟨d0, dsc, dst, dmaps, dpos, k3, k4, k5, k6, n4, n5, n6, k12, k13, k14⟩ := hD
   have hsub : subdirs.isEmpty = false := by cases subdirs <;> simp_all
   -- params of at least one probe
   obtain ⟨p, hp⟩ : ∃ p, C12.mergeParams I.params = some p := by
@@ -86,10 +86,10 @@ theorem merge_succeeds (fs : FS) (subdirs : List String) (out : String) (hout : 
     (cTemplates_run subdirs f11 _ _ ((loadTmpl_congr f11 fs subdirs out hout a11 _).trans l12) k12) ?_
   intro f12 a12
   refine step_next out _ _ fs f12 _ _ _ a12
-    (cPcInd_run subdirs f12 _ _ ((loadTable_congr f12 fs subdirs out hout a12 _).trans l13)) ?_
+    (cPcInd_run subdirs f12 _ _ ((loadTable_congr f12 fs subdirs out hout a12 _).trans l13) k13) ?_
   intro f13 a13
   refine step_next out _ _ fs f13 _ _ _ a13
-    (cTfInd_run subdirs f13 _ _ ((loadTable_congr f13 fs subdirs out hout a13 _).trans l14)) ?_
+    (cTfInd_run subdirs f13 _ _ ((loadTable_congr f13 fs subdirs out hout a13 _).trans l14) k14) ?_
   intro f14 a14
   -- 15-17 optional matrices
   refine step_next out _ _ fs f14 _ _ _ a14
